@@ -22,6 +22,11 @@ CHECKS = {
    text='Gen/Cdp2adp_gen.v is regenerated from the source on every run and Props/C07.v is re-checked against it: for every number type (floats included) the returned rho/eps pass the code\'s own test (sound) and the other bisection end fails it; on the reals cdp_delta equals the published Renyi-order bound at an alpha in [1.01, amax0], the tested expression is the derivative of the log-bound (Coquelicot), is increasing, the optimum is bracketed at every iteration with width (amax0-1.01)/2^n, and the bound is monotone in rho and eps for every order. The generated functions are executed on floats against the real functions, and a property oracle (exact Gaussian delta, golden-section optimum, monotonicity, round trips) searches the code for a failing input.',
    design='4/C07',
    note='Trusted: Coq kernel, translator/py2gallina.py (validated per run), extraction + ocaml/cdp driver (libm exp/log/log1p/sqrt). Axioms under the R theorems: the standard Reals axioms (sig_forall_dec, sig_not_dec, functional_extensionality_dep) and Classical_Prop.classic; the generic soundness theorems are closed. NOT proved: Bound(alpha) >= exact Gaussian delta (published Prop. 12) - observed on the grid; monotonicity/inverse of the composed conversions - observed.'),
+ 'C09': dict(
+   technique='Coq proof over exact rationals (unbiasedness of accepted estimators, inverse-variance combination of equal estimates, lower bound 1) with the least-squares solution as oracle input + differential correspondence of the four copies of the estimation',
+   text='Props/C09.v: an estimator v accepted by the row-space test Q^T v = 1 returns sum(x) on noise-free answers; the inverse-variance combination of estimates all equal to N >= 1 is N; the result is >= 1 and is 1 when nothing is accepted. Every run drives the four copies (FactoredInference.estimate with MD/RDA/IG and earlier calls on the same engine, LocalInference._setup, public_inference.estimate_total, mixture_inference.estimate_total exec\'d from source) over the query families of the quantifier, records the lsmr output, evaluates the exact model on it, and checks selection (exactly the measurements whose row space contains the ones vector, by dense lstsq), noise-free => N, known totals used exactly.',
+   design='4/C09',
+   note='partial: lsmr is external (its output is an oracle input; that it is the minimum-norm solution = BLUE, and optimality of inverse-variance weights, are not proved). Theorems closed under the global context.'),
  'C12': dict(
    technique='Coq proofs (triangulation covers inputs; recursive running intersection => single top node per attribute; checker soundness) + differential correspondence of the elimination model and verified checkers run on the code\'s tree',
    text='Props/C12.v: for every clique set and every elimination order the model of _triangulated yields an elimination clique containing each input clique; the computable conditions evaluated on the tree the code builds (rooted unfolding from every root reaches each node once, recursive running intersection, eliminated attributes = complement of the node) imply the textbook property that the nodes containing any attribute form one connected subtree; cover / attribute-coverage / antichain checks and the schedule check (each direction exactly once, after its dependencies) are proved sound. Each run compares the code\'s node set with the model\'s maximal elimination cliques (exhaustively for all graphs on <=4 (quick) / <=5 (thorough) attributes x orders, plus random sets up to 8 attributes) and evaluates the verified checkers on the code\'s tree and schedule.',
